@@ -296,6 +296,9 @@ func (r *rng) c14Time() time.Time {
 	if r.chance(1, 3) {
 		ns = r.i64n(1000000)
 	}
+	if r.chance(1, 16) {
+		return time.Time{} // a Timestamp that was never set
+	}
 	return time.UnixMilli(ms).Add(time.Duration(ns))
 }
 
